@@ -334,6 +334,8 @@ def run(cx, rep):
     key_classifier_agreement_rule(cx, rep, "C15.15")
     rep.rule("C15.16", "an index signature printed next to declared properties uses index-signature syntax (a mapped member must stand alone)")
     mixed_object_member_rule(cx, rep, fam, mod, "C15.16")
+    rep.rule("C15.17", "the mapped spelling describe() prints for an index signature has a lowering that evaluates the member type outside the key variable's scope")
+    mapped_member_scope_rule(cx, rep, "C15.17")
     rep.rule("C15.14", "a property name is printed bare only if TypeScript reads it as an identifier")
     bare_key_rule(cx, rep, mod, "C15.14")
     rep.rule("C15.13", "a chain of members joined by | or & is parenthesised where it is built")
@@ -796,6 +798,79 @@ def bare_key_rule(cx, rep, mod, rid):
                            fname, pat, flags, "; ".join(bad)),
                        mod.loc(t), sample={"fn": fname, "pattern": pat, "flags": flags})
     rep.floor(rid, "bare-or-quoted property name tests", n, 1)
+
+
+# ---------------------------------------------------------------------------------------------------- C15.17
+def mapped_member_scope_rule(cx, rep, rid):
+    """describe() prints EVERY index signature in the mapped spelling with one fixed key variable: `Record<string, V>`
+    comes out as `{ [K in string]: V }`.  V is printed with the names of the user's types in it - a type called `K`
+    included.  The text means the original type only if the compiler evaluates V of such a member OUTSIDE the scope of
+    the key variable (as it does for `Record<string, V>` and `{[k: string]: V}`, which have no type-level binder).
+    Decided (a necessary condition) in the frontend functions that take the mapped-type node: among the evaluations of
+    the member type (`type_ann`) there is one that does not sit between a push and a pop of the type-parameter scope;
+    if every evaluation runs under the binder, `{ [K in string]: K }` - what describe() prints for Record<string, K>
+    with a recursive or shared user type K - compiles to Record<string, string>."""
+    F = cx.rs
+    n_fn = 0
+    for g, t in sorted(F.hir.items()):
+        f = F.fns.get(g)
+        if f is None or "/src/frontend" not in (f.file or "") or f.kind == "Closure" or not any("TsMappedType" in (x or "") for x in (f.inputs or [])):
+            continue
+        body = t["body"]
+        lets = {}
+        for st in hwalk(body):
+            if st["k"] == "LetStmt" and st.get("init") is not None:
+                for b in hwalk(st["pat"]):
+                    if b["k"] == "P.Binding":
+                        lets[b.get("lid")] = st["init"]
+            if st["k"] == "Match":
+                for a in st["arms"]:
+                    for b in hwalk(a["pat"]):
+                        if b["k"] == "P.Binding":
+                            lets.setdefault(b.get("lid"), st["scrut"])
+
+        def from_type_ann(e, depth=0):
+            for x in hwalk(e):
+                if x["k"] == "Field" and x.get("name") == "type_ann":
+                    return True
+                if x["k"] == "Path" and x.get("res") == "local" and x.get("lid") in lets and depth < 4 and from_type_ann(lets[x["lid"]], depth + 1):
+                    return True
+            return False
+        evals = []
+        for c in hwalk(body):
+            if c["k"] in ("Call", "MethodCall"):
+                tg = F._callee_gid(f.crate, (c.get("callee") if c["k"] == "Call" else (c.get("resolved") or c.get("callee"))) or "")
+                tf = F.fns.get(tg)
+                if tf is not None and "/src/frontend" in (tf.file or "") and "Runtype" in (tf.output or "") and any(from_type_ann(a_) for a_ in (c.get("args") or [])):
+                    evals.append(c)
+        if not evals:
+            continue
+        n_fn += 1
+
+        def is_scope_push(x):
+            return x["k"] == "MethodCall" and x.get("method") == "push" and x["recv"]["k"] == "Field" and re.search(r"Vec<\((std::string::)?String, (\w+::)*Runtype\)>", x["recv"].get("ty") or "")
+        unbound = []
+        for e in evals:
+            bound = False
+            for blk in hwalk(body):
+                if blk["k"] != "Block":
+                    continue
+                stmts = blk.get("stmts") or []
+                idx = next((i for i, st in enumerate(stmts) if any(x is e for x in hwalk(st))), None)
+                if idx is None and not (blk.get("expr") is not None and any(x is e for x in hwalk(blk["expr"]))):
+                    continue
+                idx = len(stmts) if idx is None else idx
+                for st in stmts[:idx]:
+                    # an unconditional push statement of this block
+                    inner = st.get("e") if st["k"] in ("Semi", "ExprStmt") else None
+                    if inner is not None and is_scope_push(inner):
+                        bound = True
+            if not bound:
+                unbound.append(e)
+        rep.ob(rid, "%s/member-type-evaluated-unbound" % f.name, bool(unbound),
+               "%s evaluates the member type of a mapped type only between a push and a pop of the type-parameter scope (%d evaluation(s)): `{ [K in string]: K }`, the text describe() prints for Record<string, K> with a user type K that is printed as a named alias, then compiles to Record<string, string> - the description no longer compiles back to the type" % (g, len(evals)),
+               "%s:%s" % (f.file, evals[0]["line"]), sample={"fn": f.name, "evaluations": len(evals), "outside_the_binder": len(unbound)})
+    rep.floor(rid, "frontend functions that lower a mapped type", n_fn, 1)
 
 
 # ---------------------------------------------------------------------------------------------------- C15.15
